@@ -252,7 +252,44 @@ def read_library(d, compl):
 SKIP_TOKENS = ('zoo', 'class', 'nan')
 
 
-def check_library(d, compl, rng, npts=6, maxdraw=60, stats=None, family=True):
+def round_chains(d, compl, nround, n):
+    """Per function: the steps recorded round by round (inv_idx/inv_subs round files 0..nround-1), concatenated."""
+    chains = [[] for _ in range(n)]
+    for r in range(nround):
+        try:
+            with open('%s/inv_idx_%d_round_%d.txt' % (d, compl, r)) as f:
+                idx = [int(t) for t in f.read().split()]
+            with open('%s/inv_subs_%d_round_%d.txt' % (d, compl, r)) as f:
+                rows = [row for row in csv.reader(f, delimiter=';')]
+        except FileNotFoundError:
+            return None
+        if len(idx) != len(rows):
+            return None
+        for i, row in zip(idx, rows):
+            if 0 <= i < n:
+                chains[i] = chains[i] + list(row)
+    return chains
+
+
+def _same_composition(chain_a, chain_b, k, rng):
+    """Numerically: do two parsed chains send (a0..a(k-1)) to the same vector?  None if no point could be evaluated."""
+    names = ['a%d' % j for j in range(max(k, 1))]
+    ok = 0
+    for _ in range(12):
+        th = {nm: mp.mpf(rng.choice([-1, 1]) * rng.uniform(0.3, 3)) for nm in names}
+        ra, rb = apply_chain(chain_a, th), apply_chain(chain_b, th)
+        if ra is None or rb is None:
+            continue
+        ok += 1
+        for nm in names:
+            if abs(ra[nm] - rb[nm]) > mp.mpf(10) ** -12 * (1 + abs(ra[nm]) + abs(rb[nm])):
+                return False
+        if ok >= 3:
+            break
+    return True if ok else None
+
+
+def check_library(d, compl, rng, npts=6, maxdraw=60, stats=None, family=True, nround=None):
     """Items 1-4 of LIB-SOUND.  Returns list of problem tuples."""
     stats = stats if stats is not None else {}
     lib = read_library(d, compl)
@@ -273,6 +310,8 @@ def check_library(d, compl, rng, npts=6, maxdraw=60, stats=None, family=True):
     for j, u in enumerate(uniq):
         if not any(t in u for t in SKIP_TOKENS) and param_gaps(u):
             probs.append(('unique-param-gap', j, u))
+    # item 6: the final map of a function is the composition of what the simplifier recorded round by round
+    rchains = round_chains(d, compl, nround, n) if nround else None
     used = set()
     stats.setdefault('functions', 0)
     stats.setdefault('merged', 0)
@@ -296,6 +335,20 @@ def check_library(d, compl, rng, npts=6, maxdraw=60, stats=None, family=True):
         except Exception as e:
             probs.append(('bad-map-syntax', i, f, subs[i], str(e)[:80]))
             continue
+        if rchains is not None and not (u == f and not subs[i]):
+            try:
+                rc = parse_chain(rchains[i])
+            except Exception:
+                rc = 'bad'
+            if rc != 'bad':
+                if (rc is None) != (chain is None):
+                    if not (chain == [] and rc is None):      # a blanked row of a split-off function is handled above (u == f)
+                        probs.append(('round-files-disagree:nan', i, f, subs[i], rchains[i]))
+                elif rc is not None and chain is not None:
+                    same = _same_composition(chain, rc, max(kf, ku), rng)
+                    stats['round_checked'] = stats.get('round_checked', 0) + 1
+                    if same is False:
+                        probs.append(('round-files-disagree', i, f, subs[i], rchains[i]))
         if chain is None:
             stats['nan_chains'] += 1
             if not ku < kf:
@@ -362,7 +415,7 @@ def classify(probs):
     if not hard:
         return None
     p = hard[0]
-    if p[0] in ('map-mismatch', 'nan-without-fewer-params', 'not-same-family'):
+    if p[0] in ('map-mismatch', 'nan-without-fewer-params', 'not-same-family', 'round-files-disagree', 'round-files-disagree:nan'):
         return 'lib-unsound:%s:%s' % (p[0], p[2])
     return 'lib-unsound:%s' % p[0]
 
